@@ -91,10 +91,10 @@ Inductive dayfrac_eqs (V1 V2 D F : R) : Prop :=
 
 Theorem day_frac_eqs (v1 v2 : PrimFloat.float) :
   bnd v1 53 -> bnd v2 53 ->
-  let '(d, f) := day_frac v1 v2 in
+  let '(d, f) := day_frac0 v1 v2 in
   fin d /\ fin f /\ dayfrac_eqs (R_of v1) (R_of v2) (R_of d) (R_of f).
 Proof.
-  intros B1 B2. unfold day_frac.
+  intros B1 B2. unfold day_frac0.
   pose proof (two_sum_b v1 v2 53 ltac:(lia) ltac:(lia) B1 B2) as H.
   destruct (Phase2.two_sum v1 v2) as [sum12 err12]. destruct H as (Bs & Be & Es & Hse).
   (* day0 = floor (sum12 + 0.5) *)
